@@ -39,10 +39,11 @@ DELIBERATE = (
     "Line search failed to converge",
 )
 
-logging.getLogger("pygradflow").setLevel(logging.WARNING)
-if not logging.getLogger("pygradflow").handlers:
-    logging.getLogger("pygradflow").addHandler(logging.NullHandler())
-logging.getLogger("pygradflow").propagate = False
+LOGGER = logging.getLogger("gradflow")  # the name pygradflow.log uses
+LOGGER.setLevel(logging.WARNING)
+if not LOGGER.handlers:
+    LOGGER.addHandler(logging.NullHandler())
+LOGGER.propagate = False
 
 
 def valid_combo(cfg):
@@ -243,7 +244,7 @@ def run_solve(problem, params, x0, y0=None, solver_cls=RecSolver, clock=None, lo
     """One complete solve on the real code.  Returns SolveRecord with fields
     solver, result (or None), exc (or None), trials, cb, digest."""
     rec = SolveRecord()
-    logger = logging.getLogger("pygradflow")
+    logger = LOGGER
     old_level = logger.level
     if log_level is not None:
         logger.setLevel(log_level)
@@ -301,3 +302,40 @@ def outcome_of(rec):
     if e["deliberate"]:
         return "deliberate:" + e["msg"][:22]
     return "crash:" + e["cls"]
+
+
+class RecordLinear:
+    """Substituted for pygradflow.linear_solver.linear_solver: records the matrix, every
+    right-hand side and every returned solution (the seam between step and linear solver)."""
+
+    def __init__(self):
+        self.systems = []  # dict(mat=dense, solves=[(rhs, sol, trans)])
+
+    def __enter__(self):
+        self.orig = pls.linear_solver
+        outer = self
+
+        def factory(mat, solver_type, symmetric=False):
+            inner = outer.orig(mat, solver_type, symmetric=symmetric)
+            entry = {"mat": mat.toarray(), "solves": [], "type": solver_type.name, "symmetric": symmetric}
+            outer.systems.append(entry)
+            return _RecSolver(inner, entry)
+
+        pls.linear_solver = factory
+        return self
+
+    def __exit__(self, *a):
+        pls.linear_solver = self.orig
+
+
+class _RecSolver:
+    def __init__(self, inner, entry):
+        self.inner, self.entry = inner, entry
+
+    def solve(self, rhs, trans=False, initial_sol=None):
+        sol = self.inner.solve(rhs, trans=trans, initial_sol=initial_sol)
+        self.entry["solves"].append((np.array(rhs, copy=True), np.array(sol, copy=True), trans))
+        return sol
+
+    def __getattr__(self, name):
+        return getattr(self.inner, name)
